@@ -24,6 +24,22 @@ std::string check_monotone(const Table& t, const FitProblem& p, uint32_t md) {
   return "";
 }
 
+// drop every data row beyond a cut along the monotonic dimension, so that the last few (>= 3) basis functions of that
+// dimension have no data under them: such coefficients enter the fit one at a time, late, through single-row updates
+// of the factorization (returns the number of coefficients along md left without data)
+int truncate_along(FitProblem& p, uint32_t md, int gap) {
+  auto nf = p.nfun();
+  if ((int)nf[md] < gap + 2) return 0;
+  double cut = p.knots[md][nf[md] - gap];   // basis functions nf-gap .. nf-1 are supported on [knot[nf-gap], ...)
+  std::vector<size_t> keep;
+  for (size_t r = 0; r < p.nrows(); r++) if (p.coords[md][p.idx[md][r]] < cut) keep.push_back(r);
+  if (keep.size() < 2 || keep.size() == p.nrows()) return 0;
+  std::vector<double> y, w; std::vector<std::vector<unsigned>> idx(p.ndim);
+  for (size_t r : keep) { y.push_back(p.y[r]); w.push_back(p.w[r]); for (uint32_t d = 0; d < p.ndim; d++) idx[d].push_back(p.idx[d][r]); }
+  p.y.swap(y); p.w.swap(w); p.idx.swap(idx);
+  return gap;
+}
+
 CaseResult body_any(Chooser& ch, Stats* st) {
   CaseResult r;
   QuietStderr q;
@@ -34,7 +50,9 @@ CaseResult body_any(Chooser& ch, Stats* st) {
   static const double scales[] = {1, 1, 1e-7, 1e-9, 1e-12, 1e4};
   double scale = gen_version() >= 2 ? scales[ch.draw(0, 5)] : 1.0;
   for (double& v : p.y) v *= scale;
-  r.json = "{\"monodim\":" + std::to_string(md) + ",\"data_scale\":" + jnum(scale) + ",\"problem\":" + p.json() + "}";
+  int gap = 0;
+  if (gen_version() >= 2 && ch.coin(1, 4)) { gap = truncate_along(p, md, 3 + (int)ch.draw(0, 2)); if (gap) { for (uint32_t d = 0; d < p.ndim; d++) if (p.smooth[d] == 0) p.smooth[d] = 1e-3; p.porder[md] = std::min<uint32_t>(2, p.order[md]); p.single_smooth = p.single_porder = false; } }
+  r.json = "{\"monodim\":" + std::to_string(md) + ",\"data_scale\":" + jnum(scale) + ",\"coefficients_without_data\":" + std::to_string(gap) + ",\"problem\":" + p.json() + "}";
   DenseSys S = assemble_reference(p);
   std::vector<LD> L;
   if (!cholesky_ld(S.A, S.n, L)) { r.discard = true; if (st) st->label("discard:not_positive_definite"); return r; }
@@ -52,7 +70,7 @@ CaseResult body_any(Chooser& ch, Stats* st) {
     st->label("ndim:" + std::to_string(p.ndim)); st->label("monodim:" + std::to_string(md)); st->label(active ? "constraint:active" : "constraint:inactive");
     st->label("data:" + p.data_class.substr(0, p.data_class.find('+'))); if (p.data_class.find("sparse") != std::string::npos) st->label("sparse");
     if (md != 0 && md != p.ndim - 1) st->label("monodim:interior");
-    st->label("data_scale:" + jnum(scale));
+    st->label("data_scale:" + jnum(scale)); if (gap) st->label("trailing_coefficients_without_data");
     if (active) { Hasher h; h.add(md); for (uint32_t d = 0; d < p.ndim; d++) { h.add(p.order[d]); for (double k : p.knots[d]) h.addd(k); } for (double v : p.y) h.addd(v); for (double v : p.w) h.addd(v); st->nontriv(h.h); }
     st->sample(r.json);
   }
@@ -141,7 +159,9 @@ CaseResult body_inactive_smoothed(Chooser& ch, Stats* st) {
     p.y[row] = (double)v;
   }
   p.data_class = "steep_monotone_spline_on_same_knots";
-  r.json = "{\"monodim\":" + std::to_string(md) + ",\"problem\":" + p.json() + "}";
+  int gap = 0;
+  if (ch.coin(1, 3)) { gap = truncate_along(p, md, 3 + (int)ch.draw(0, 2)); if (gap) { p.porder[md] = std::min<uint32_t>(2, p.order[md]); if (p.smooth[md] == 0) p.smooth[md] = 0.05; p.single_smooth = p.single_porder = false; } }
+  r.json = "{\"monodim\":" + std::to_string(md) + ",\"coefficients_without_data\":" + std::to_string(gap) + ",\"problem\":" + p.json() + "}";
   DenseSys S = assemble_reference(p);
   std::vector<LD> L;
   if (!cholesky_ld(S.A, S.n, L)) { r.discard = true; if (st) st->label("discard:not_positive_definite"); return r; }
@@ -157,6 +177,7 @@ CaseResult body_inactive_smoothed(Chooser& ch, Stats* st) {
   if (st) {
     st->label("ndim:" + std::to_string(p.ndim)); st->label("monodim:" + std::to_string(md)); st->label("constraint:inactive");
     bool other = false; for (uint32_t d = 0; d < p.ndim; d++) if (d != md && p.smooth[d] > 0) other = true;
+    if (gap) st->label("trailing_coefficients_without_data");
     st->label(p.smooth[md] > 0 ? "smoothing:monotonic_dimension" : "smoothing:not_in_monotonic_dimension"); if (other) st->label("smoothing:other_dimension");
     for (uint32_t d = 0; d < p.ndim; d++) if (p.smooth[d] > 0) st->label("porder_smoothed:" + std::to_string(p.porder[d]));
     Hasher h; h.add(md); for (double v : p.y) h.addd(v); for (double v : p.smooth) h.addd(v); for (uint32_t d = 0; d < p.ndim; d++) for (double k : p.knots[d]) h.addd(k); st->nontriv(h.h); st->sample(r.json);
